@@ -1021,6 +1021,23 @@ func runScanCase(x *acCtx, c *acCase) {
 		if int(rd.Version) != c.A.Ver {
 			x.viol("roundtrip/read/v2.Reader.Version", c, fmt.Sprintf("Version %d", rd.Version), map[string]any{"mode": "scan"})
 		}
+		// payload readers are independent of each other and of the other calls: take one, call Roots and Inspect on a
+		// fresh Reader, take a second one and read a little from it, then drain the first
+		if rd2, err := carv2.NewReader(bytes.NewReader(file)); err == nil {
+			d1, e1 := rd2.DataReader()
+			rd2.Roots()
+			d2, e2 := rd2.DataReader()
+			if e1 == nil && e2 == nil {
+				head := make([]byte, min(7, len(payload)))
+				io.ReadFull(d2, head)
+				rd2.Inspect(false)
+				all, _ := io.ReadAll(d1)
+				rest, _ := io.ReadAll(d2)
+				if !bytes.Equal(all, payload) || !bytes.Equal(append(head, rest...), payload) {
+					x.viol("roundtrip/read/v2.Reader.DataReader", c, fmt.Sprintf("two payload readers interleaved with Roots and Inspect yield %d and %d bytes, the payload has %d", len(all), len(head)+len(rest), len(payload)), map[string]any{"mode": "scan"})
+				}
+			}
+		}
 		if c.A.Ver == 2 {
 			ir, err := rd.IndexReader()
 			if c.A.Idx == "none" {
@@ -1139,11 +1156,11 @@ func runArchiveReplay(args []string) int {
 		rep.inconclusive(err.Error())
 	}
 	rep.write(out)
-	if len(rep.Inconcl) > 0 {
-		return 2
-	}
 	if len(rep.ViolClasses) > 0 {
 		return 1
+	}
+	if len(rep.Inconcl) > 0 {
+		return 2
 	}
 	return 0
 }
